@@ -25,8 +25,9 @@ def run(tier):
     key_table(res, facts)
     serialize_impls(res, facts)
     set_claim(res, facts)
-    payload(res, facts)
-    payload_concrete(res, facts)
+    # the payload on concrete two-claim builders first; the symbolic pipeline rule only when that did not decide the whole of it
+    if not payload_concrete(res, facts):
+        payload(res, facts)
     wrap(res, facts)
     writers(res, facts)
     for f in CL.analyse(facts):
@@ -48,10 +49,53 @@ def run(tier):
     return res
 
 
+def ctor_keys(facts, b):
+    """the keys a claim constructor (From / TryFrom / Default impl) stores, read off its interpretation with a symbolic text argument:
+    (set of keys, number of constructing paths), or None when a path is undecided or the key is not a known text"""
+    I = A.Interp(facts, MD.MODELS, max_paths=400)
+    args = [A.Seq("value", A.Aff.sym("len(value)"), kind="str")][:b.get("arg_count") or 0]
+    if len(args) != (b.get("arg_count") or 0):
+        return None
+    outs = I.run(b, args)
+    keys, n = set(), 0
+    for o in outs:
+        if o.kind != "return" or o.state.unmodelled or _fpai.undecided(o):
+            return None
+        r = I.resolve(o.state, o.value)
+        if isinstance(r, A.Struct) and r.adt == "core::result::Result":
+            if r.variant != "Ok":
+                continue
+            r = I.resolve(o.state, r.fields.get("0"))
+        inner = I.resolve(o.state, r.fields.get("0")) if isinstance(r, A.Struct) else None
+        k = MD.deref(I, o.state, inner.fields.get("0")) if isinstance(inner, A.Struct) and "0" in inner.fields else None
+        if not (isinstance(k, A.StrV) and isinstance(k.s, str)):
+            return None
+        keys.add(k.s)
+        n += 1
+    return (keys, n) if n else None
+
+
 def key_table(res, facts):
     count = {}
+    # the constructors of the typed claims, interpreted: whatever way the key gets there (a literal, a constant of a private trait, a
+    # helper), the claim built holds its registered key on every constructing path
+    decided = set()
+    for ty, key in TYPED:
+        for b in [x for nm in ("from", "try_from", "default") for x in S.impl_fns(facts, r"^crate::generic::claims::" + re.escape(ty), r"^core::convert::(Try)?From<|^core::default::Default$", nm)]:
+            ck = ctor_keys(facts, b)
+            if ck is None:
+                continue
+            decided.add(b["id"])
+            ok = ck[0] == {key}
+            res.oblige(ok)
+            if ok:
+                res.inst("C14.R1", "%s stores key %r (on %d constructing paths)" % (M.short(b["id"])[:90], key, ck[1]))
+            else:
+                res.violate("C14.R1", b["id"], "claim key", "%s must be constructed under its registered key %r; the constructor stores %s" % (ty.split("::")[-1], key, sorted(ck[0])), file=M.view(facts, b).file(), line=b["line"])
     for bid, b in sorted(facts.bodies.items()):
         v = None
+        if bid in decided or (decided and b.get("vis") != "pub" and not (b.get("impl_trait") or "").startswith("core::")):
+            continue      # a decided constructor, or a private helper that only acts through the constructors decided above
         for blk in b["blocks"]:
             for st in blk["stmts"]:
                 if st["k"] == "assign" and st["rv"]["k"] == "aggregate" and st["rv"]["ak"] == "adt":
@@ -290,7 +334,7 @@ def payload(res, facts):
             problems.append("undecided path (unmodelled %s, notes %s)" % (o.state.unmodelled, o.state.notes[:1]))
         for e in o.state.events:
             if e[0] == "collect_map":
-                if e[1] != "self.claims":
+                if not re.fullmatch(r"self\.claims(\.0)*", str(e[1])):      # (`.0`: a private newtype around the map)
                     problems.append("the payload is collected from %s, not from self.claims" % e[1])
                 for kd, vd, conds, unm in e[2]:
                     mappings.append((kd, vd, conds))
@@ -358,13 +402,49 @@ def payload_concrete(res, facts):
             ents.setdefault(str(MD.str_key(I_, st_, kx)[1]), []).append(d)
         st_.events.append(("wrap_claims_in", ents))
 
+    def obj(I_, st_, pairs):
+        """what wrap_claims returns for these entries: an object with the same keys, each value wrapped"""
+        ents = []
+        for kx, vx in pairs:
+            val = MD.deref(I_, st_, vx)
+            d = "Null" if isinstance(val, A.Struct) and val.adt == "serde_json::value::Value" and val.variant == "Null" else getattr(val, "name", "?")
+            ents.append((A.StrV(str(MD.str_key(I_, st_, kx)[1])), A.Sym("w(%s)" % d, attrs={"adt": "serde_json::value::Value"})))
+        return A.Struct("serde_json::value::Value", "Object", {"0": MI.mapv("wrapped", ents)})
+
+    def jtext(I_, st_, x):
+        """the compact JSON text of a value as a list of pieces: an object with known members is written member by member"""
+        v_ = MD.deref(I_, st_, x)
+        if isinstance(v_, A.Struct) and v_.adt == "serde_json::value::Value" and v_.variant == "Object" and MI.is_map(MD.deref(I_, st_, v_.fields.get("0"))):
+            v_ = MD.deref(I_, st_, v_.fields.get("0"))
+        if MI.is_map(v_):
+            out_ = [("lit", "{")]
+            for i_, e_ in enumerate(MI._entries(v_)):
+                if i_:
+                    out_.append(("lit", ","))
+                out_ += jtext(I_, st_, e_.fields["0"]) + [("lit", ":")] + jtext(I_, st_, e_.fields["1"])
+            return out_ + [("lit", "}")]
+        d_ = MD.describe(I_, st_, x)
+        return [("arg", A.Seq("json(%s)" % d_, A.Aff.sym("len(json(%s))" % d_), kind="str"))]
+
+    def m_ts(I_, st_, info, args_, depth):
+        ch = jtext(I_, st_, args_[0])
+        ln = A.Aff(0)
+        for c_ in ch:
+            ln = ln.add(A.Aff(len(c_[1])) if c_[0] == "lit" else c_[1].length)
+        txt = A.Seq("json_text@%d" % info["ln"], ln, None, ch, kind="str", attrs={"json_text_of": MD.describe(I_, st_, args_[0])})
+        s2 = st_.clone()
+        st_.cond.append("to_string ok")
+        s2.cond.append("to_string fails")
+        return [(st_, "return", A.ok(txt)), (s2, "return", A.err(A.Sym("serde_json::Error")))]
+
     def m_wc(I_, st_, info, args_, depth):
         """wrap_claims summarised: what it is handed - a map, or a lazy stream of (key, value) pairs which is drawn to its end here"""
         wrapped = A.Sym("wrapped", attrs={"adt": "serde_json::value::Value"})
         m = MD.deref(I_, st_, args_[0])
         if MI.is_map(m):
-            record(I_, st_, [(e.fields["0"], e.fields["1"]) for e in MI._entries(m)])
-            return [(st_, "return", wrapped)]
+            pairs_ = [(e.fields["0"], e.fields["1"]) for e in MI._entries(m)]
+            record(I_, st_, pairs_)
+            return [(st_, "return", obj(I_, st_, pairs_))]
         it = MI.as_iter(I_, st_, args_[0])
         if it is None:
             st_.events.append(("wrap_claims_in", None))
@@ -380,47 +460,70 @@ def payload_concrete(res, facts):
                 if isinstance(t, A.Struct) and {"0", "1"} <= set(t.fields):
                     pairs.append((t.fields["0"], t.fields["1"]))
             record(I_, s2, pairs)
-            out.append((s2, "return", wrapped))
+            out.append((s2, "return", obj(I_, s2, pairs)))
         return out
-    I = A.Interp(facts, [(re.compile(r"^serde_json::value::to_value$"), m_tv), (re.compile(r"::wrap_claims$"), m_wc)] + MD.MODELS)
-    I.concrete_maps = True
-    st = A.State()
-    me_v = A.Struct("crate::generic::builders::generic_builder::GenericBuilder", None, {
-        "version": A.UNIT, "purpose": A.UNIT, "claims": MI.mapv("claims", [(A.StrV("k1"), A.Sym("C1", attrs={"claim": "C1"})), (A.StrV("k2"), A.Sym("C2", attrs={"claim": "C2"}))]),
-        "footer": A.Sym("self.footer", attrs={"adt": "core::option::Option"}), "implicit_assertion": A.Sym("self.implicit_assertion", attrs={"adt": "core::option::Option"})})
-    me = st.new_cell(me_v)
-    outs = I.run(b, [A.Ptr(me)], st)
-    if not outs or any(o.kind not in ("return", "panic") or o.state.unmodelled or _fpai.undecided(o) for o in outs):
-        return    # undecided: the symbolic pipeline rule above stands alone
     probs = []
+    probs_text = []
+    text_undecided = False
+    n_text = 0
     n = 0
-    for o in outs:
-        if o.kind != "return":
-            continue
-        cond = " & ".join(o.state.cond)
-        ins = [e[1] for e in o.state.events if e[0] == "wrap_claims_in"]
-        if len(ins) != 1 or ins[0] is None:
-            r = I.resolve(o.state, o.value)
-            if isinstance(r, A.Struct) and r.variant == "Err" and not ins:
+    # the claims sit under every registered key as well as under custom ones: nothing at build time may depend on the key
+    for K1, K2 in (("k1", "k2"), ("exp", "nbf"), ("iat", "jti"), ("iss", "sub"), ("aud", "x-custom")):
+        I = A.Interp(facts, [(re.compile(r"^serde_json::value::to_value$"), m_tv), (re.compile(r"::wrap_claims$"), m_wc), (re.compile(r"^serde_json::ser::to_string$"), m_ts)] + MD.MODELS)
+        I.concrete_maps = True
+        st = A.State()
+        me_v = A.Struct("crate::generic::builders::generic_builder::GenericBuilder", None, {
+            "version": A.UNIT, "purpose": A.UNIT, "claims": MI.mapv("claims", [(A.StrV(K1), A.Sym("C1", attrs={"claim": "C1"})), (A.StrV(K2), A.Sym("C2", attrs={"claim": "C2"}))]),
+            "footer": A.Sym("self.footer", attrs={"adt": "core::option::Option"}), "implicit_assertion": A.Sym("self.implicit_assertion", attrs={"adt": "core::option::Option"})})
+        me = st.new_cell(me_v)
+        outs = I.run(b, [A.Ptr(me)], st)
+        if not outs or any(o.kind not in ("return", "panic") or o.state.unmodelled or _fpai.undecided(o) for o in outs):
+            return False   # undecided: the symbolic pipeline rule stands alone
+        for o in outs:
+            if o.kind != "return":
                 continue
-            probs.append("wrap_claims is applied %d times to a concrete claim map when [%s]" % (len(ins), cond[-160:]))
-            continue
-        n += 1
-        got = ins[0]
-        for k, c in (("k1", "C1"), ("k2", "C2")):
-            failed = ("to_value(%s) fails" % c) in o.state.cond
-            want = ["Value::Null"] if failed else ["tv(%s)" % c]
-            if got.get(k) != want:
-                probs.append("claim %s reaches the payload as %s instead of %s when [%s]" % (k, got.get(k, "nothing (entry dropped)"), want[0], cond[-200:]))
-        extra = sorted(set(got) - {"k1", "k2"})
-        if extra:
-            probs.append("members %s appear in the payload without a stored claim" % extra)
+            cond = " & ".join(o.state.cond)
+            ins = [e[1] for e in o.state.events if e[0] == "wrap_claims_in"]
+            if len(ins) != 1 or ins[0] is None:
+                r = I.resolve(o.state, o.value)
+                if isinstance(r, A.Struct) and r.variant == "Err" and not ins:
+                    continue
+                probs.append("wrap_claims is applied %d times to a concrete claim map when [%s]" % (len(ins), cond[-160:]))
+                continue
+            n += 1
+            got = ins[0]
+            for k, c in ((K1, "C1"), (K2, "C2")):
+                failed = ("to_value(%s) fails" % c) in o.state.cond
+                want = ["Value::Null"] if failed else ["tv(%s)" % c]
+                if got.get(k) != want:
+                    probs.append("claim %s reaches the payload as %s instead of %s when [%s]" % (k, got.get(k, "nothing (entry dropped)"), want[0], cond[-200:]))
+            extra = sorted(set(got) - {K1, K2})
+            if extra:
+                probs.append("members %s appear in the payload without a stored claim" % extra)
+            # the payload text: the compact JSON text of what wrap_claims returned, member by member in the map's order
+            r = I.resolve(o.state, o.value)
+            if isinstance(r, A.Struct) and r.variant == "Ok":
+                names = {"Value::Null": "Null"}
+                want_text = "{" + ",".join("{json(%r)}:{json(w(%s))}" % (k, names.get(vs[0], vs[0])) for k, vs in got.items()) + "}"
+                got_text = MD.describe(I, o.state, r.fields.get("0"))
+                if got_text != want_text:
+                    text_undecided = True if "json" not in got_text else text_undecided
+                    probs_text.append("the payload text is %s, expected the JSON text %s when [%s]" % (got_text[:160], want_text[:160], cond[-120:]))
+                else:
+                    n_text += 1
+    if probs_text and not text_undecided:
+        probs += probs_text
     ok = not probs and n > 0
     res.oblige(ok)
     if ok:
-        res.inst("C14.R3", "build_payload_from_claims on a two-claim builder: wrap_claims receives exactly {k1: to_value(C1), k2: to_value(C2)} (Null only when serialisation fails) on %d paths" % n)
+        res.inst("C14.R3", "build_payload_from_claims on a two-claim builder: wrap_claims receives exactly {k1: to_value(C1), k2: to_value(C2)} (Null only when serialisation fails) on %d paths, with k1, k2 ranging over the registered keys and custom ones" % n)
     else:
         res.violate("C14.R3", b["id"], "payload entry dropped / transformed at build time", "; ".join(sorted(set(probs)))[:500] or "no path hands a claim map to wrap_claims", file=v.file(), line=b["line"])
+    if ok and n_text > 0 and not probs_text:
+        res.oblige(True)
+        res.inst("C14.R3", "build_payload_from_claims returns the compact JSON text of the wrapped claim map, member by member (%d paths)" % n_text)
+        return True
+    return False
 
 
 def wrap(res, facts):
